@@ -2,19 +2,23 @@ import os, subprocess, time
 import common
 
 CONFIG = {
-    "rule": "case = one scenario: n in {2,4,16} interpreter contexts, one program (list of statements) per context, and ONE interleaving of the statements given explicitly; "
+    "rule": "case = one scenario: n in {2,4,16} interpreter contexts, each created with its own ContextOpts (SysArgs and SysPaths each nil / empty / supplied, named in the input), one program (list of statements) per context, and ONE interleaving of the statements given explicitly; "
             "every statement runs in the __main__ module of its context on that context's own goroutine (deterministic hand-over) and leaves one observation (rendered value / ok / E:<class>); "
-            "V = every context's observation trace + the verdict of the heap walk (reflection over the Go object graph from every context's module store: a writable Python object reachable from two contexts = shared; "
-            "dictionaries of built-in types and Globals of registered module implementations compared with a snapshot); spec V = every context's trace when it runs ALONE + 'disjoint'. "
-            "family A = 31 mutations (module globals, sys.path/argv append/rebind/del/rebound to a non-list before an import, builtins.len rebound/deleted/shadowed, math/os/c8a module state, os.environ, attributes of int/float/ValueError, class attributes, sys.stdout, missing module, __name__) x one probe program, EVERY interleaving of the two programs (quick: first 12 per mutation, thorough: all); "
-            "family B = VERIF_SEED-derived programs (imports, reads, name/attribute/key writes, append, del over names, modules, builtin types, aliases) over 2/4/16 contexts with a seeded interleaving (quick 260, thorough 12000); "
-            "family C (tie only) = one *py.Code object run by 16 contexts at once, 16 contexts importing a source-defined registered module at once, concurrent py.Compile of the same sources (GOMAXPROCS 1/4/16). "
+            "V = every context's observation trace + the verdict of the heap walk (reflection over the Go object graph from every context's module store AND from the Globals of every registered module implementation, the registry being enumerated through a linkname: "
+            "a writable Python object reachable from two contexts, or from a context and the registry = shared; dictionaries of built-in types, Globals of the implementations and the CONTENTS of the lists/dicts they hold compared with a snapshot); spec V = every context's trace when it runs ALONE + 'disjoint'. "
+            "family A = 52 mutations (module globals, sys.path/argv append/rebind/del/in-place through an alias/nested list/rebound to a non-list before an import, builtins.len/print/int rebound, deleted, swapped, shadowed, attribute writes and deletes on the Go modules math/time/string/os, "
+            "lists and dicts held in the Globals of a Go implementation (c8a.lst, c8a.cfg, os.environ) mutated in place, a SOURCE-defined registered module (c8s) imported by both contexts then its globals and their objects mutated, attributes of int/float/ValueError, class attributes, sys.stdout, missing module, __name__) x one probe program, "
+            "EVERY interleaving of the two programs (quick: first 12 per mutation, thorough: all), the ContextOpts rotating through SS,SS / EE,EE / NN,NN / SE,NS / EN,SE; "
+            "family O = the 7 sys.path/sys.argv mutations under ALL 81 combinations of (SysArgs, SysPaths) in {nil, empty, supplied}^2 for the two contexts (quick: 1 interleaving each, thorough: 3); "
+            "family B = VERIF_SEED-derived programs (imports, reads, name/attribute/key writes, append, del over names, modules, builtin types, aliases) over 2/4/16 contexts with seeded ContextOpts per context and a seeded interleaving (quick 260, thorough 12000); "
+            "family C (tie only) = one *py.Code object run by 16 contexts at once, 16 contexts importing a source-defined registered module at once, concurrent py.Compile of the same sources (GOMAXPROCS 1/4/16), n contexts importing the same source FILE then mutating the module's globals, list, dict, class (one after the other and at once; heap walk afterwards); "
+            "two thirds of the family-C contexts are created without SysArgs/SysPaths and one of the shared programs mutates sys.path, sys.argv and os.environ in place. "
             "Scenarios marked free additionally run the n programs freely on n goroutines (GOMAXPROCS 1/4/16 x 2 seeded yield patterns, odd contexts compile their statements themselves, even ones share code objects) and each trace must equal the solo trace; "
             "the free and C scenarios are re-run under a -race build, any race report is a violation. non-trivial = some context writes and a DIFFERENT context observes; distinct = distinct input lines",
     "trusted_base": [
         "Lean 4.33.0 kernel; axioms allowed: propext, Classical.choice, Quot.sound (audited per theorem on every run)",
         "lean/GPy/C08/Spec.lean: the reference is relational (a context's trace when only its own statements run, `soloTrace`); `Disjoint` (no writable object reachable from two contexts) and its inductive form `Confined`",
-        "lean/GPy/C08/Model.lean: hand transliteration of py/module.go (registry, NewModule: one-level copy of Globals, methods re-bound, store registration), stdlib/stdlib.go NewContext/ModuleInit, py/import.go (store, registry, ImportError), "
+        "lean/GPy/C08/Model.lean: hand transliteration of py/module.go (registry, NewModule/instanceGlobals: one-level copy of Globals + copy of list/dict values, methods re-bound, store registration), stdlib/stdlib.go NewContext as its six steps/ModuleInit (module bodies are not executed: the source-defined harness module c8s is represented by the constants its body binds), py/import.go (store, registry, ImportError), "
         "py/frame.go name lookup, py/internal.go GetAttrString/SetAttrString/DeleteAttrString/GetItem/SetItem incl. the refusal to write built-in types; tied to the repo by the correspondence run only. "
         "References carry an allocation namespace (owner, serial): Go addresses are treated as opaque identities",
         "lean/GPy/C08/Generated.lean is regenerated from the Go sources by extract/pkgvars (go/parser + go/ast, syntactic: writes through aliases/receivers such as t.Dict[..] inside *Type methods are not seen) on every run; "
@@ -27,7 +31,8 @@ CONFIG = {
         "process resources are outside the claim: the three py.File objects around os.Stdin/Stdout/Stderr are shared by all contexts (sys.stdout is per context and can be rebound, the default object is the same), os.chdir/putenv act on the process",
         "the walk does not descend into Go closures (func values); package-level variables are covered by the static write table, not walked (no accessor overlay yet)",
         "exception objects and bound-method objects accept no attribute writes from Python and are treated as immutable by the walk",
-        "`newcontext_confined` assumes implementations with immutable Globals; the sys implementation's own path/argv lists (replaced by NewContext) are covered by the walk on the implementation",
+        "`isolation` / `newcontext_disjoint_std` are about the modelled part of the tree's registry (builtins, sys incl. its own path/argv lists, os incl. environ, math, string, time, two harness modules); for an arbitrary registry `isolation_partial` assumes `RegOK` (Globals = immutable values or lists/dicts of immutable values): a list inside a list in an implementation's Globals would still be shared (instanceGlobals copies one level), no module of the tree has one",
+        "the converse of `confined_disjoint` (a label-free disjoint graph admits a confining labelling) is not proved: references of the model carry their allocation namespace, so the statement needs an equivariance theorem of `step` under renaming; the walk checks `DisjointR` on the implementation instead",
     ],
     "exhaustive": False,
     "dist_tokens": 1,
